@@ -320,3 +320,56 @@ def r04g(ctx):
                 else:
                     ctx.bad(cid, c.module.loc(call), f"columns absorbed into the source are `{ast.unparse(vv)[:100]}`, not a filter over self.columns: the list follows the order of the request (sorted union of all consumers), while readers like read_csv deliver file order, so labels and data order can disagree with the declared schema")
     ctx.floor("absorbing projection sites", n, 2)
+
+
+@rule(
+    "R04h",
+    ["C04", "C01"],
+    """PRUNING ONLY BELOW A SELECTION: `determine_column_projection(self, parent, dependents)` answers "which of MY OUTPUT columns do
+    my consumers need" by looking at the consumers' own column lists when they are not selections. A rewrite rule that prunes its
+    input with that answer (directly or through plain_column_projection / groupby_projection) is only valid when the parent IS a
+    column selection (Projection, or Index for the empty selection): under any other parent the labels are those of the parent's
+    output (renamed, suffixed, merged) and the rule drops columns that are still needed.""",
+)
+def r04h(ctx):
+    model = ctx.model
+    HELPERS = ("determine_column_projection", "plain_column_projection", "groupby_projection")
+    n = 0
+    for c, m in own_methods(model, "_simplify_up"):
+        fn = m.node
+        par = fn.args.args[1].arg if len(fn.args.args) > 1 else "parent"
+        for call in (x for x in iter_body_nodes(fn) if isinstance(x, ast.Call) and (dotted(x.func) or "").split(".")[-1] in HELPERS):
+            # only calls about this parent
+            if not any(isinstance(a, ast.Name) and a.id == par for a in call.args):
+                continue
+            n += 1
+            pt = flow.point_of(fn, call)
+            ok = False
+            if pt is not None:
+                for t, pol in flow.facts(pt):
+                    if pol and isinstance(t, ast.Call) and dotted(t.func) == "isinstance" and len(t.args) == 2 and isinstance(t.args[0], ast.Name) and t.args[0].id == par:
+                        kinds = {dotted(e) for e in (t.args[1].elts if isinstance(t.args[1], ast.Tuple) else [t.args[1]])}
+                        if kinds & {"Projection", "Index", "expr.Projection"}:
+                            ok = True
+            if not ok:
+                # the helper itself may hold the guard: every non-None return of it sits under isinstance(parent, Projection)
+                hname = (dotted(call.func) or "").split(".")[-1]
+                if hname != "determine_column_projection":
+                    try:
+                        hmod, hfn = model.func("_expr" if hname == "plain_column_projection" else "_groupby", hname)
+                        hpar = hfn.args.args[1].arg
+                        rets = [p_ for p_ in flow.returns(hfn) if p_.stmt.value is not None and not (isinstance(p_.stmt.value, ast.Constant) and p_.stmt.value.value is None)]
+                        ok = bool(rets) and all(any(pol and isinstance(t, ast.Call) and dotted(t.func) == "isinstance" and isinstance(t.args[0], ast.Name) and t.args[0].id == hpar and {dotted(e) for e in (t.args[1].elts if isinstance(t.args[1], ast.Tuple) else [t.args[1]])} & {"Projection", "Index"} for t, pol in flow.facts(p_)) for p_ in rets)
+                    except AnalysisError:
+                        ok = False
+            cid = f"{qual(c, fn)}:{(dotted(call.func) or '').split('.')[-1]}@{_ordinal(fn, call)}"
+            if ok:
+                ctx.ok(cid, c.module.loc(call), "under isinstance(parent, Projection / Index)")
+            else:
+                ctx.bad(cid, c.module.loc(call), f"{qual(c, fn)} computes / applies a column pruning for ANY kind of parent: under a consumer that is not a selection (rename, add_suffix, merge ...) the requested labels are those of the consumer's output and columns that are still needed are dropped from the input")
+    ctx.floor("pruning sites in _simplify_up rules", n, 35)
+
+
+def _ordinal(fn, call):
+    xs = sorted((x for x in iter_body_nodes(fn) if isinstance(x, ast.Call)), key=lambda x: (x.lineno, x.col_offset))
+    return next(i for i, x in enumerate(xs) if x is call)
